@@ -87,6 +87,10 @@ type nrSim struct {
 	settleAt  time.Time
 	nrec      int
 
+	// missed: an injected read fault made the controller drop the node's reconcile without a retry (node list of a
+	// config fan-out failed; ConfigMap probe of an unavailable config cache failed); cleared when the node is reconciled
+	missed map[string]bool
+
 	tagNoMetric, tagMemReq bool
 	deferred               *[3]string
 }
@@ -99,7 +103,7 @@ func (nrEngine) Execute(r *sim.Run) {
 			return name == midresource.PluginName || name == batchresource.PluginName || name == cpunormalization.PluginName
 		})
 	})
-	s := &nrSim{r: r, pods: map[string]*nrPodM{}, cmByRV: map[string]*nrCMCfg{}}
+	s := &nrSim{r: r, pods: map[string]*nrPodM{}, cmByRV: map[string]*nrCMCfg{}, missed: map[string]bool{}}
 	r.Plan.GetCfg(&s.cfg)
 	var ops []nrOp
 	r.Plan.GetOps(&ops)
@@ -587,6 +591,29 @@ func (s *nrSim) exec(op *nrOp) {
 			n.nextTick = time.Now().Add(time.Duration(s.cfg.ReportSec) * time.Second)
 		}
 		r.Event("koordlet %s up=%v", n.name, op.Up)
+	case "metric":
+		if n == nil || s.nodeObj(n) == nil {
+			skip()
+			return
+		}
+		cur := s.st.latest(nrKindMetric, "/"+n.name)
+		if op.Up == (cur != nil) {
+			skip()
+			return
+		}
+		if op.Up {
+			// the nodemetric controller creates the NodeMetric of a node that has none: empty, nothing reported yet
+			s.st.put(nrKindMetric, &slov1alpha1.NodeMetric{ObjectMeta: metav1.ObjectMeta{Name: n.name}})
+			r.Probe("nodemetric-recreated")
+		} else {
+			s.st.del(nrKindMetric, "/"+n.name)
+			r.Probe("nodemetric-deleted")
+			if s.published(s.nodeObj(n)) {
+				r.Probe("nodemetric-deleted-while-amounts-published")
+			}
+		}
+		r.Event("metric %s exists=%v", n.name, op.Up)
+		s.pump()
 	case "pod_add":
 		name := fmt.Sprintf("p%d", op.P)
 		if n == nil || op.Pod == nil || s.pods[name] != nil || s.nodeObj(n) == nil {
@@ -906,6 +933,7 @@ func (s *nrSim) pump() {
 			opts = append(opts, "work")
 		}
 		if len(opts) == 0 {
+			s.checkQuiescent()
 			return
 		}
 		if o := opts[s.r.Choose(len(opts))]; o == "work" {
@@ -922,9 +950,13 @@ func (s *nrSim) work() {
 	s.st.cap = c
 	availBefore := s.mcfg.avail
 	mBefore := s.mcfg
+	delete(s.missed, req.Name)
 	res, err := s.rec.Reconcile(nrCtx, req)
 	s.st.cap = nil
 	s.nrec++
+	if !availBefore && c.firstCMErr == "err" {
+		s.missed[req.Name] = true // dropped at the failed ConfigMap probe, no retry
+	}
 	switch {
 	case err != nil:
 		s.q.AddRateLimited(req)
@@ -1059,6 +1091,15 @@ func (s *nrSim) finish() {
 		if n.koordletUp && r.Flip(0.5) {
 			n.koordletUp = false
 			r.Event("settle: koordlet %s stops", n.name)
+			if s.cfg.SettleDel && s.st.latest(nrKindMetric, "/"+n.name) != nil && r.Flip(0.5) {
+				// ... for good: the koordlet is uninstalled and its NodeMetric removed
+				s.st.del(nrKindMetric, "/"+n.name)
+				r.Event("settle: metric %s deleted", n.name)
+				r.Probe("settle-nodemetric-deleted")
+				if s.published(cur) {
+					r.Probe("nodemetric-deleted-while-amounts-published")
+				}
+			}
 		}
 		if eff, ok := s.effective(cur); ok && eff.degradeMin > maxDeg {
 			maxDeg = eff.degradeMin
